@@ -2026,10 +2026,18 @@ class Cache:
                         if fix:
                             os.remove(full_path)
 
-                # Check for empty directories.
+                # Check for empty directories (bottom-up: a directory that
+                # holds nothing but empty directories is empty as well).
 
-                for dirpath, dirs, files in os.walk(self._directory):
-                    if not (dirs or files):
+                empty = set()
+
+                for dirpath, dirs, files in os.walk(
+                    self._directory, topdown=False
+                ):
+                    paths = (op.join(dirpath, name) for name in dirs)
+
+                    if not files and all(path in empty for path in paths):
+                        empty.add(dirpath)
                         message = 'empty directory: %s' % dirpath
                         warnings.warn(message, EmptyDirWarning)
 
